@@ -18,7 +18,7 @@ import (
 var (
 	Buckets = []string{"B1", "B2"}
 	Keys    = []string{"k1", "k2"}
-	Values  = []string{"a", "b", ""}
+	Values  = []string{"a", "b", "", nilValue}
 )
 
 // Op is one operation of the alphabet.
@@ -40,6 +40,9 @@ func (o Op) String() string {
 	}
 	return o.Kind
 }
+
+// nilValue marks a put with a nil slice.
+const nilValue = "<nil>"
 
 // Alphabet returns the operation alphabet, simplest first.
 func Alphabet(reopen bool) []Op {
@@ -105,7 +108,11 @@ func (m *Model) Apply(o Op) (wantErr bool) {
 		}
 		m.view[Buckets[o.Bucket]] = map[string]string{}
 	case "put":
-		m.view[Buckets[o.Bucket]][Keys[o.Key]] = Values[o.Val]
+		v := Values[o.Val]
+		if v == nilValue {
+			v = ""
+		}
+		m.view[Buckets[o.Bucket]][Keys[o.Key]] = v
 	case "del":
 		delete(m.view[Buckets[o.Bucket]], Keys[o.Key])
 	case "flush", "reopen":
@@ -286,7 +293,11 @@ func RunSeq(be Backend, dir string, seq []Op) (mm *Mismatch) {
 		case "create":
 			_, gotErr = db.CreateBucket([]byte(Buckets[o.Bucket]))
 		case "put":
-			gotErr = db.Bucket([]byte(Buckets[o.Bucket])).Put([]byte(Keys[o.Key]), []byte(Values[o.Val]))
+			val := []byte(Values[o.Val])
+			if Values[o.Val] == nilValue {
+				val = nil // a nil slice, which every backend must treat like an empty value
+			}
+			gotErr = db.Bucket([]byte(Buckets[o.Bucket])).Put([]byte(Keys[o.Key]), val)
 		case "del":
 			gotErr = db.Bucket([]byte(Buckets[o.Bucket])).Delete([]byte(Keys[o.Key]))
 		case "flush":
